@@ -107,6 +107,20 @@ func (e schedEnv) Event(kind, detail string) uint64 {
 
 var c20Topics = []string{"a", "b", "c"}
 
+// CrashIsViolation implements core.CrashChecker: a run that kills the process
+// or computes without end counts against the property ("each request's
+// response is identical to the response it gets when run alone" needs a
+// response), see HangNeedsLibraryFrame for what is not counted.
+func (C20) CrashIsViolation() string { return "C20" }
+
+// RunTimeout implements core.CrashChecker (a run takes milliseconds).
+func (C20) RunTimeout() float64 { return 30 }
+
+// HangNeedsLibraryFrame implements core.HangAttributor: only a child whose
+// goroutine dump shows library code computing counts; everything parked is
+// harness trouble (exit 2).
+func (C20) HangNeedsLibraryFrame() bool { return true }
+
 func (c C20) Run(t *tape.Tape, opt core.RunOpt) (res core.Result) {
 	cfg := sched.DrawConfig(t)
 	s := sched.New(t, cfg)
